@@ -212,6 +212,8 @@ func c18Peer(c *ev.Ctx, r *rand.Rand, caseN int) (string, map[string]interface{}
 
 func c18Base(c *ev.Ctx, r *rand.Rand, caseN int) (string, map[string]interface{}) {
 	var mu sync.Mutex
+	rememberPeer := caseN%2 == 0 // an application whose OngoingSessionPeer keeps naming the last peer after the session ended
+	lastPeer := ""
 	session := "" // peer of the running session
 	unregistering := map[string]bool{}
 	unregistered := map[string]bool{} // UnregisterPeer returned and the peer was not registered again
@@ -259,6 +261,7 @@ func c18Base(c *ev.Ctx, r *rand.Rand, caseN int) (string, map[string]interface{}
 				bad = "session-started-after-terminate"
 			}
 			session = pick
+			lastPeer = pick
 			note("start " + pick)
 		},
 		TerminateSession: func() {
@@ -277,6 +280,9 @@ func c18Base(c *ev.Ctx, r *rand.Rand, caseN int) (string, map[string]interface{}
 		OngoingSessionPeer: func() string {
 			mu.Lock()
 			defer mu.Unlock()
+			if session == "" && rememberPeer {
+				return lastPeer
+			}
 			return session
 		},
 	})
@@ -332,6 +338,16 @@ func c18Base(c *ev.Ctx, r *rand.Rand, caseN int) (string, map[string]interface{}
 	}
 	mu.Unlock()
 	_ = d.RegisterPeer("late")
+	// after termination: the remaining entry points that run the routine must not start anything
+	mu.Lock()
+	lp := lastPeer
+	mu.Unlock()
+	if lp != "" {
+		_ = d.UnregisterPeer(lp)
+	}
+	d.Mu.Lock()
+	d.Routine()
+	d.Mu.Unlock()
 	time.Sleep(5 * time.Millisecond)
 	d.Wg.Wait()
 	mu.Lock()
